@@ -437,6 +437,49 @@ func checkR13_2(w *World, r *Report, kt *kindTable) {
 	}
 	r.floor("whitespace-control passes", len(passes), 1)
 
+	// wrappers: a function every path of which (to a return) calls a pass is a pass for rule (c)
+	for changed, round := true, 0; changed && round < 4; round++ {
+		changed = false
+		for _, fn := range w.pkgFuncs() {
+			obj, _ := fn.Object().(*types.Func)
+			if obj == nil || passes[obj] || len(fn.Blocks) == 0 {
+				continue
+			}
+			calls := false
+			instrsOf(fn, func(in ssa.Instruction) {
+				if cc, ok := in.(ssa.CallInstruction); ok {
+					if f := calleeFunc(cc); f != nil && passes[f] {
+						calls = true
+					}
+				}
+			})
+			if !calls {
+				continue
+			}
+			gen := func(x ssa.Instruction) bool {
+				if cc, ok := x.(ssa.CallInstruction); ok {
+					if f := calleeFunc(cc); f != nil && passes[f] {
+						return true
+					}
+				}
+				return false
+			}
+			all, nret := true, 0
+			instrsOf(fn, func(in ssa.Instruction) {
+				if _, ok := in.(*ssa.Return); ok {
+					nret++
+					if bad, _ := existsPathAvoiding(fn, in, gen, nil); bad {
+						all = false
+					}
+				}
+			})
+			if all && nret > 0 {
+				passes[obj] = true
+				changed = true
+			}
+		}
+	}
+
 	// (c) Parse: every feasible path to the parser's main loop passes a whitespace-control pass
 	parse := w.ssaFunc(w.method("Parser", "Parse"))
 	outer := w.method("Parser", "parseOuterTemplate")
